@@ -6,7 +6,7 @@ import itertools
 from sx import core
 from sx.core import PathBudget, eq, ne, le, lt, ge, gt, AND, OR, NOT, IMPL, add
 from sx.engine import harness
-from sx.env import factory
+from sx.env import factory, sym_only, sym_float
 from . import common as C
 from . import families as F
 
@@ -30,7 +30,68 @@ def _make_elect_wrapper(ctx):
     return wrapper
 
 
+class GuardList(list):
+    """election_states with a round limit: more than `limit` recorded rounds ends the path as a
+    non-termination candidate (then replayed concretely under a wall-clock alarm)."""
+    limit = 40
+
+    def append(self, x):
+        if len(self) >= self.limit:
+            raise PathBudget()
+        list.append(self, x)
+
+    def __iadd__(self, other):
+        if len(self) + len(other) > self.limit:
+            raise PathBudget()
+        list.extend(self, other)
+        return self
+
+
+def _stash_factory(ctx):
+    import votekit.models as M
+    real = M.Election.__dict__["_run_election"]
+    ctx.notes["elections"] = []
+
+    def wrapped(self):
+        ctx.notes["elections"].append(self)
+        g = GuardList(self.election_states)
+        if not ctx.sym:
+            g.limit = 300
+        self.election_states = g
+        return real(self)
+
+    return wrapped
+
+
+def _boosted_np(ctx):
+    import numpy as real_np
+    from sx.env import NpStub, sym_np_overrides
+    return NpStub(ctx, real_np, sym_np_overrides() if ctx.sym else None)
+
+
+BRD = "votekit.elections.election_types.ranking.boosted_random_dictator"
 EXTRA = {(mn, "elect_cands_from_set_ranking"): factory(_make_elect_wrapper) for mn in WRAP_MODS}
+EXTRA[("votekit.models:Election", "_run_election")] = factory(_stash_factory)
+EXTRA[(BRD, "np")] = factory(_boosted_np)
+EXTRA[(BRD, "float")] = sym_only(sym_float)
+
+
+def diagnose(ctx):
+    """what the partially run election(s) looked like when an exception escaped (used to key findings)"""
+    tags = set()
+    for e in ctx.notes.get("elections", []):
+        try:
+            n_el = sum(len(s) for st in e.election_states for s in st.elected)
+            mm = getattr(e, "m", None)
+            if isinstance(mm, int) and n_el > mm:
+                tags.add("over-elected")
+            if hasattr(e, "quota") and isinstance(getattr(e, "threshold", None), int) and e.threshold == 0:
+                tags.add("threshold=0")
+        except Exception:
+            pass
+    if ctx.notes.get("sample_overdraw"):
+        tags.add("surplus>transferable")
+    return "[" + "+".join(sorted(tags)) + "]" if tags else ""
 
 
 def construct(rule, profile, m, opts):
@@ -69,14 +130,21 @@ def construct(rule, profile, m, opts):
 
 
 def where_raised(exc):
+    import os
+    if os.environ.get("SX_TRACE"):
+        import traceback, sys
+        traceback.print_exception(exc, file=sys.stderr)
     tb = exc.__traceback__
     last = None
+    via_replay = False
     while tb is not None:
         fn = tb.tb_frame.f_code.co_filename
         if "/votekit/" in fn:
             last = tb.tb_frame.f_code.co_name
+            if last == "get_profile":
+                via_replay = True
         tb = tb.tb_next
-    return last or "?"
+    return (last or "?") + ("/via-get_profile" if via_replay else "")
 
 
 def deciding_scores(rule, opts, present, cands):
@@ -138,16 +206,13 @@ def election(ctx):
     try:
         e = construct(rule, profile, m, opts)
     except PathBudget:
-        ctx.fail("nontermination", f"{rule} did not finish")
+        ctx.fail("nontermination" + diagnose(ctx), f"{rule} did not finish")
         return {"kind": "nonterm"}
     except ValueError as exc:
         where = where_raised(exc)
         calls = ctx.notes.get("elect_calls", [])
-        if tb is not None:
-            ctx.fail(f"exc:ValueError@{where}", f"ValueError although tiebreak={tb}: {exc}")
-            return {"kind": "exc", "type": "ValueError"}
-        if where != "elect_cands_from_set_ranking" or not calls:
-            ctx.fail(f"exc:ValueError@{where}", str(exc)[:200])
+        if tb is not None or not where.startswith("elect_cands_from_set_ranking") or not calls:
+            ctx.fail(f"exc:ValueError@{where}{diagnose(ctx)}", f"tiebreak={tb}: {exc}"[:200])
             return {"kind": "exc", "type": "ValueError"}
         ranking, mm, prof, _ = calls[-1]
         # the straddling set of that call
@@ -176,7 +241,7 @@ def election(ctx):
         return {"kind": "tie-valueerror", "tied": tl}
     except Exception as exc:
         where = where_raised(exc)
-        ctx.fail(f"exc:{type(exc).__name__}@{where}", str(exc)[:200])
+        ctx.fail(f"exc:{type(exc).__name__}@{where}{diagnose(ctx)}", str(exc)[:200])
         return {"kind": "exc", "type": type(exc).__name__}
     ok = check_outcome(ctx, e, rule, m, opts, cands, present)
     if ok and tb is None and rule in SINGLE_ROUND:
@@ -202,12 +267,117 @@ def election(ctx):
 
 
 # ---------------------------------------------------------------------------
+SCORE_RULES = ("Rating", "Approval", "Limited", "Cumulative", "BlocPlurality")
+
+
+def build_score_profile(ctx, P, constrain=True):
+    """nb score ballots over cands with symbolic scores >= 0 and weights > 0.
+    Returns (profile, rows) with rows = [(weight, {cand: score})] (all cands, zeros included)."""
+    from votekit.ballot import Ballot
+    from votekit.pref_profile import PreferenceProfile
+    cands, nb, rule, m = P["cands"], P["nb"], P["rule"], P["m"]
+    L, k = P.get("L"), P.get("k")
+    rows = []
+    ballots = []
+    for b in range(nb):
+        w = ctx.real(f"w{b}", lo=0, lo_strict=True)
+        sc = {c: ctx.real(f"s{b}{c}", lo=0, snap=True) for c in cands}
+        if constrain:
+            lim, bud = limits_of(rule, m, L, k)
+            for c in cands:
+                ctx.assume(le(sc[c], lim))
+            if bud is not None:
+                ctx.assume(le(add(*sc.values()), bud))
+        ctx.assume(gt(add(*sc.values()), 0))
+        rows.append((w, sc))
+        ballots.append(Ballot(weight=w, scores=dict(sc)))
+    return PreferenceProfile(ballots=tuple(ballots), candidates=tuple(cands)), rows
+
+
+def limits_of(rule, m, L, k):
+    if rule == "Rating":
+        return L, None
+    if rule == "Approval":
+        return 1, None
+    if rule == "Limited":
+        return k, k
+    if rule == "Cumulative":
+        return m, m
+    if rule == "BlocPlurality":
+        return 1, (k if k else m)
+    if rule == "GeneralRating":
+        return L, k
+    raise ValueError(rule)
+
+
+def construct_score(rule, profile, m, L, k, tb):
+    from votekit import elections as E
+    if rule == "Rating":
+        return E.Rating(profile, m=m, L=L, tiebreak=tb)
+    if rule == "Approval":
+        return E.Approval(profile, m=m, tiebreak=tb)
+    if rule == "Limited":
+        return E.Limited(profile, m=m, k=k, tiebreak=tb)
+    if rule == "Cumulative":
+        return E.Cumulative(profile, m=m, tiebreak=tb)
+    if rule == "BlocPlurality":
+        return E.BlocPlurality(profile, m=m, k=k, tiebreak=tb)
+    if rule == "GeneralRating":
+        return E.GeneralRating(profile, m=m, L=L, k=k, tiebreak=tb)
+    raise ValueError(rule)
+
+
+def def_score_totals(rows, cands):
+    return {c: add(*[core.mul(w, sc[c]) for w, sc in rows]) for c in cands}
+
+
+@harness("c01.score_election", extra=EXTRA, path_alarm=40.0)
+def score_election(ctx):
+    P = ctx.params
+    rule, m, cands, tb = P["rule"], P["m"], P["cands"], P.get("tiebreak")
+    profile, rows = build_score_profile(ctx, P)
+    tot = def_score_totals(rows, cands)
+    try:
+        e = construct_score(rule, profile, m, P.get("L"), P.get("k"), tb)
+    except PathBudget:
+        ctx.fail("nontermination", rule)
+        return {"kind": "nonterm"}
+    except ValueError as exc:
+        where = where_raised(exc)
+        if tb is not None or not where.startswith("elect_cands_from_set_ranking"):
+            ctx.fail(f"exc:ValueError@{where}", f"tiebreak={tb}: {exc}"[:200])
+            return {"kind": "exc", "type": "ValueError"}
+        ctx.require(C.straddle_tie(tot, cands, m), "valueerror-iff-boundary-tie",
+                    "ValueError although no tie straddles seat m by definition totals")
+        return {"kind": "tie-valueerror"}
+    except Exception as exc:
+        ctx.fail(f"exc:{type(exc).__name__}@{where_raised(exc)}", str(exc)[:200])
+        return {"kind": "exc", "type": type(exc).__name__}
+    ok = check_outcome(ctx, e, rule, m, {}, cands, None)
+    if ok:
+        el = C.flat(e.get_elected())
+        ctx.require(AND(*[ge(tot[a], tot[b]) for a in el for b in cands if b not in el]), "winners-not-top-m")
+        if tb is None:
+            ctx.require(NOT(C.straddle_tie(tot, cands, m)), "result-despite-boundary-tie")
+    return {"kind": "result", "states": C.states_json(e)}
+
+
+# ---------------------------------------------------------------------------
 def _t(rule, m, opts, fam, cands, nmax=None, W=None, name=None, **kw):
     t = {"harness": "c01.election",
          "params": {"rule": rule, "m": m, "opts": opts, "family": fam, "cands": cands, "nmax": nmax, "W": W,
                     "strict": True},
          "sig_keys": ["rule", "opts", "m"],
          "name": name or f"{rule} m={m} {opts} support={[C.shape_str(s) for s in fam]}"}
+    t.update(kw)
+    return t
+
+
+def _ts(rule, m, tb, cands, nb, L=None, k=None, **kw):
+    t = {"harness": "c01.score_election",
+         "params": {"rule": rule, "m": m, "tiebreak": tb, "cands": cands, "nb": nb, "L": L, "k": k},
+         "sig_keys": ["rule", "m", "tiebreak"],
+         "name": f"{rule} m={m} tb={tb} nb={nb} L={L} k={k}"}
     t.update(kw)
     return t
 
@@ -247,6 +417,52 @@ def tasks(tier, seed):
         fams = [fams3[(i + 1) % len(fams3)]] if q else fams3
         for sup in supports_of(fams):
             out.append(_t("IRV", 1, {"quota": "droop", "tiebreak": tb}, sup, C.K3, nmax=nmax, weight=len(sup), xval_stride=stride))
+    # single-round positional rules (tied positions allowed)
+    tied = F.tied3(q)
+    for fam in tied:
+        for sup in supports_of([fam], sizes=None if not q else (len(fam), 2)):
+            for m in (1, 2, 3):
+                for tb in (None, "random", "borda", "first_place"):
+                    out.append(_t("Plurality", m, {"tiebreak": tb}, sup, C.K3, weight=len(sup), xval_stride=stride))
+                for tb in (None, "first_place"):
+                    out.append(_t("Borda", m, {"tiebreak": tb}, sup, C.K3, weight=len(sup), xval_stride=stride))
+            out.append(_t("SNTV", 2, {"tiebreak": None}, sup, C.K3, weight=len(sup), xval_stride=stride))
+            out.append(_t("Borda", 2, {"tiebreak": "random", "score_vector": [3, 1]}, sup, C.K3, weight=len(sup), xval_stride=stride))
+            for m in (1, 2):
+                out.append(_t("RandomDictator", m, {}, sup, C.K3, weight=len(sup), xval_stride=stride))
+                out.append(_t("BoostedRandomDictator", m, {}, sup, C.K3, weight=len(sup), xval_stride=0))
+    for m in (1, 2, 3):  # the all-seats corner on a plain family
+        out.append(_t("RandomDictator", m, {}, fams3[4], C.K3, weight=3))
+        out.append(_t("BoostedRandomDictator", m, {}, fams3[4], C.K3, weight=3, xval_stride=0))
+    # composite / pairwise rules on untied families
+    fsel = fams3[:3] if q else fams3
+    for fam in fsel:
+        for sup in supports_of([fam], sizes=None if not q else (len(fam), len(fam) - 1, 1)):
+            for tb in (None, "random"):
+                out.append(_t("TopTwo", 1, {"tiebreak": tb}, sup, C.K3, weight=len(sup), xval_stride=stride))
+            for (m1, m2) in ((2, 1), (3, 2), (2, 2), (3, 1)):
+                o = {"m_1": m1, "quota": "droop", "simultaneous": True, "transfer": "fractional", "tiebreak": None}
+                out.append(_t("Alaska", m2, o, sup, C.K3, nmax=nmax, weight=2 * len(sup), xval_stride=stride))
+            out.append(_t("Alaska", 1, {"m_1": 2, "quota": "droop", "simultaneous": False, "transfer": "fractional",
+                                         "tiebreak": "random"}, sup, C.K3, nmax=nmax, weight=2 * len(sup), xval_stride=stride))
+            out.append(_t("DominatingSets", 1, {}, sup, C.K3, weight=len(sup), xval_stride=stride))
+            for m in (1, 2, 3):
+                out.append(_t("CondoBorda", m, {}, sup, C.K3, weight=len(sup), xval_stride=stride))
+    # PluralityVeto: integer weights, bounded total (the rule loops over unit ballots)
+    pv = F.fam("A>B>C", "B>C>A", "C>A>B") if q else None
+    for fam in ([pv] if q else fams3[:4]):
+        for sup in supports_of([fam], sizes=(1, 2, 3)):
+            for m in (1, 2):
+                out.append(_t("PluralityVeto", m, {"tiebreak": None}, sup, C.K3, nmax=3 if q else 4, W=2,
+                              weight=3 * len(sup), xval_stride=stride))
+    # score rules
+    for rule, L, k in (("Rating", 2, None), ("Approval", None, None), ("Limited", None, 2), ("Cumulative", None, None),
+                       ("BlocPlurality", None, None)):
+        for m in ((2,) if q else (1, 2, 3)):
+            for tb in (None, "random"):
+                if rule == "Limited" and k > m:
+                    continue
+                out.append(_ts(rule, m, tb, C.K3, 2, L=L, k=k, weight=6, xval_stride=stride))
     return out
 
 
